@@ -657,6 +657,10 @@ impl<'p, C: SimCfg> World<'p, C> {
                     }
                 }
                 let mut skip = false;
+                let receiver_holds: Vec<i32> = match self.nodes.get(to).map(|n| &n.sess) {
+                    Some(Sess::Peer(s)) => (0..self.plan.cfg.num_players).map(|pl| s.verif_connect_status(pl).map(|x| x.1).unwrap_or(-1)).collect(),
+                    _ => Vec::new(),
+                };
                 let r = last.map(|mut m| {
                     if let MBody::Input(inp) = &mut m.body {
                         let orig = ggrs::verif::decode(&[], &inp.bytes).unwrap_or_default();
@@ -709,7 +713,13 @@ impl<'p, C: SimCfg> World<'p, C> {
                                 inp.bytes = ggrs::verif::encode(&[], &frames);
                             }
                             InputMutation::Piggyback { garbage, ack_delta, disconnect_player, last_frame } => {
+                                if *garbage == 3 {
+                                    // the genuine payload, untouched: a well-formed packet whose only
+                                    // news is the connection status (scripted peer, C17)
+                                    payload_changed = false;
+                                }
                                 match garbage {
+                                    3 => {}
                                     0 => {
                                         let mut frames = orig.clone();
                                         if let Some(f) = frames.last_mut() {
@@ -725,8 +735,10 @@ impl<'p, C: SimCfg> World<'p, C> {
                                 }
                                 inp.ack_frame = inp.ack_frame.saturating_add(*ack_delta);
                                 if let Some(pl) = disconnect_player {
+                                    // i32::MIN: the last frame the receiver itself holds for that player right now
+                                    let lf = if *last_frame == i32::MIN { receiver_holds.get(*pl).copied().unwrap_or(-1) } else { *last_frame };
                                     if let Some(st) = inp.peer_connect_status.get_mut(*pl) {
-                                        *st = MConn { disconnected: true, last_frame: *last_frame };
+                                        *st = MConn { disconnected: true, last_frame: lf };
                                     }
                                 }
                                 *self.probes.extra.entry("forged_piggyback").or_insert(0) += 1;
